@@ -44,6 +44,8 @@ def dispatch (st : DState) (toks : List String) : DState × String :=
   | ["S", "both-see", _] => (st, "both")
   | ["S", "parent-known"] => (st, "ok")
   | ["S", "balshadow"] => (st, "match")
+  | ["S", "static-same"] => (st, "same")
+  | ["S", "attribution", _] => (st, "ok")
   -- C20 specification: every instruction's work stays within the fixed multiple of its fee
   | ["S", "workbound", _] => (st, "ok")
   -- C16 specification: repeated runs of one history give identical answers (the model is a function)
